@@ -750,7 +750,11 @@ func (h *cdcH) stopNode(n *cdcNode) {
 		// left (batcher channels full, nobody reads batcher.C): only stop a service whose hand-off channel
 		// is drained, and do not wait for ever.
 		c := h.cnt[n.id]
-		cdcWait(30*time.Second, func() bool { return c.commit.Load()-c.dropped.Load() == c.inTotal.Load() })
+		svc0 := n.svc
+		cdcWait(30*time.Second, func() bool {
+			// ... and writeToBatcher has returned from every batcher write it began (cdc.in is logged before the write)
+			return c.commit.Load()-c.dropped.Load() == c.inTotal.Load() && int64(svc0.VerifWritesToBatcher()) >= c.inKept.Load()
+		})
 		done := make(chan struct{})
 		svc := n.svc
 		go func() { svc.Stop(); close(done) }()
@@ -1842,6 +1846,7 @@ func cdcLive(h *cdcH, base string, g *cdcGen) (*cdcResult, error) {
 		old := svcs[f.ID]
 		mu.Unlock()
 		h.ingested(f.ID)
+		cdcWait(30*time.Second, func() bool { return int64(old.svc.VerifWritesToBatcher()) >= h.cnt[f.ID].inKept.Load() })
 		old.svc.Stop()
 		emit("", "c.restart", "node", f.ID, "snap", 0)
 		h.cnt[f.ID].resetPipeline()
